@@ -112,9 +112,17 @@ def densePairs : List ObjId → Nat → List (ObjId × ObjId) → Option (List (
     -- never moved past the last one (fix of F-C10-c)
     if newId > U32_MAXE then none else densePairs rest (newId + 1) acc'
 
-/-- first half of `renumber_objects_with`: put the pages in page order (only when they are not) -/
+/-- `.filter(|id| listed.insert(*id))`: every id once, at its first position (fix of F-C11-d) -/
+def firstOccAux (seen : List ObjId) : List ObjId → List ObjId
+  | [] => []
+  | x :: xs => if seen.contains x then firstOccAux seen xs else x :: firstOccAux (x :: seen) xs
+
+def firstOcc (l : List ObjId) : List ObjId := firstOccAux [] l
+
+/-- first half of `renumber_objects_with`: put the pages in page order (only when they are not); a page
+the tree lists more than once is taken once -/
 def pagePass (d : Doc) : Doc :=
-  match pagePairs (pageIter d.trailer d.objects) with
+  match pagePairs (firstOcc (pageIter d.trailer d.objects)) with
   | some pairs =>
     let st := movePass d.bookmarks d.objects d.bmTable pairs
     let r := traverse (renameAct st.replace) d.trailer st.objects
